@@ -1804,13 +1804,16 @@ class SpaceUpdater(SharedSpaceOperations):
             nodes_removed.append(child)
             self._remove_hook(self._graph, child)
 
-        # Re-derive the sub spaces of the deleted space and of its descendants
+        # Re-derive the sub spaces of the deleted space and of its descendants,
+        # bases first
+        affected = set()
         for n in nodes_removed:
-            for _, v in nx.edge_bfs(self.manager._graph, n):
-                if v not in nodes_removed:
-                    self._instructions.append(
-                        Instruction(self._update_derived_space, (v,))
-                    )
+            affected.update(nx.descendants(self.manager._graph, n))
+        affected.difference_update(nodes_removed)
+        for v in nx.topological_sort(self.manager._graph.subgraph(affected)):
+            self._instructions.append(
+                Instruction(self._update_derived_space, (v,))
+            )
 
         self._graph.remove_nodes_from(nodes_removed)
 
